@@ -4,6 +4,7 @@ documented error.  Property theorems; the lemmas are in RigModel/Lemmas/C02*.lea
 -/
 import RigModel.Lemmas.C02Merge2
 import RigModel.Lemmas.C02Term
+import RigModel.Lemmas.C02Complete
 set_option linter.unusedSimpArgs false
 set_option linter.unusedVariables false
 
@@ -294,6 +295,74 @@ theorem seqPlace_terminates (vr : VR) (cs : List Constraint) (m : Machine)
             simp only [hP, hS, bind, Except.bind] at this ⊢
             exact this
 
+private theorem applySameLoop_noSame (vr : VR) (cs : List Constraint) (subs : List (List Vtx))
+    (h : ∀ vs, Constraint.same vs ∉ cs) :
+    ∀ (n i : Nat), applySameLoop n i vr cs subs = .ok (vr, cs, subs) := by
+  intro n
+  induction n with
+  | zero => intro i; rfl
+  | succ n ih =>
+    intro i
+    simp only [applySameLoop]
+    split
+    · rename_i vs hget
+      exact absurd (List.mem_of_getElem? hget) (h vs)
+    · exact ih _
+
+/-- **Completeness (sequential family) under the unit-demand hypothesis.**  If there are no
+same-chip groups, every vertex needs nothing but 0 or 1 unit of one resource `r0`, the constraint
+loop succeeds (location-constrained vertices fit on their chips after the reservations), the chip
+order lists at least one working chip and no working chip twice, and the total free amount of `r0`
+on the listed chips covers the vertices still to be placed, then the sequential placer succeeds -
+for EVERY vertex order over known vertices and EVERY such chip order (hence Hilbert / RCM /
+breadth-first whenever their chip order covers the free capacity). -/
+theorem seqPlace_complete_unit (vr : VR) (cs : List Constraint) (m m' : Machine) (fixed : Placement)
+    (vertexOrder : Option (List Vtx)) (chipOrder : Option (List Chip)) (r0 : Nat)
+    (hnodup : (keys vr).Nodup) (hcap : NonNegCap m)
+    (hnosame : ∀ vs, Constraint.same vs ∉ cs)
+    (hunit : ∀ v d, (v, d) ∈ vr → UnitDem r0 d)
+    (hprep : prepareLoop vr cs m [] = .ok (m', fixed))
+    (hknown : ∀ v ∈ vertexOrder.getD (keys vr), v ∈ keys vr)
+    (hnd : ((chipOrder.getD m'.chips).filter m'.ok).Nodup)
+    (hne : (chipOrder.getD m'.chips).filter m'.ok ≠ [])
+    (hsuff : needOf fixed vr r0 (vertexOrder.getD (keys vr)) ≤
+      total m' ((chipOrder.getD m'.chips).filter m'.ok) r0) :
+    ∃ p, seqPlace vr cs m vertexOrder chipOrder = .ok p := by
+  unfold seqPlace
+  split
+  · exact ⟨[], rfl⟩
+  · have hA : applySame vr cs = .ok (vr, cs, []) := applySameLoop_noSame vr cs [] hnosame _ _
+    have hnn : NonNegVR vr := by
+      intro v d hvd i
+      have hu := hunit v d hvd
+      by_cases e : i = r0
+      · subst e; rcases hu.2 with h | h <;> omega
+      · rw [hu.1 i e]; omega
+    have I := inv_after_prepare hnodup hnn hcap hprep
+    have hNN : NN m' := fun c hc i => I.nonneg c (by rw [← I.ok_eq]; exact hc) i
+    have hunit' : ∀ v ∈ vertexOrder.getD (keys vr), ∃ d, aget vr v = some d ∧ UnitDem r0 d := by
+      intro v hv
+      have := (aget_isSome_iff vr v).2 (hknown v hv)
+      cases hx : aget vr v with
+      | none => simp [hx] at this
+      | some d => exact ⟨d, rfl, hunit v d (aget_some_mem hx)⟩
+    have hokc : ∀ c ∈ (chipOrder.getD m'.chips).filter m'.ok, m'.ok c = true := by
+      intro c hc; exact (List.mem_filter.1 hc).2
+    obtain ⟨pf, hpf⟩ := seqLoop_complete vr _ hnd hne fixed r0 (vertexOrder.getD (keys vr)) 0 m' fixed
+      hokc hNN hunit' (fun v h => h) hsuff
+    have hemp : ((chipOrder.getD m'.chips).filter m'.ok).isEmpty = false := by
+      cases hx : (chipOrder.getD m'.chips).filter m'.ok with
+      | nil => exact absurd hx hne
+      | cons a t => rfl
+    refine ⟨pf, ?_⟩
+    cases vertexOrder with
+    | none =>
+      simp only [Option.getD_none] at hpf
+      simp [hA, hprep, bind, Except.bind, pure, Except.pure, hemp, hpf, finalise, finaliseFrom]
+    | some vo =>
+      simp only [Option.getD_some] at hpf
+      simp [hA, hprep, bind, Except.bind, substOrder, hemp, hpf, finalise, finaliseFrom]
+
 /-! ### non-vacuity: a problem with a same-chip group whose two members are both pinned (to the
 same chip), a global reservation, a resource exception, a custom vertex order and chip order
 satisfies every hypothesis, and both placers succeed on it -/
@@ -358,6 +427,30 @@ example : Feasible exVR exCS exM [(o 2, (1, 0)), (o 0, (1, 0)), (o 1, (1, 0))] :
 /-- the specification is not trivially true: the same problem with every vertex on the small chip -/
 example : ¬ Feasible exVR exCS exM [(o 2, (0, 0)), (o 0, (0, 0)), (o 1, (0, 0))] := by
   rw [← validPlacement_iff]; decide
+
+private def unVR : VR := [(o 0, [1]), (o 1, [1]), (o 2, [0])]
+private def unCS : List Constraint := [loc (o 0) (0, 0), reserve 0 1 none]
+private def unM : Machine := { w := 2, h := 1, res := [2], exc := [], dead := [] }
+
+/-- the hypotheses of the completeness theorem hold for a problem in which the capacity is used up
+exactly (one free unit left for the one movable vertex that needs a unit) -/
+example : ∃ p, seqPlace unVR unCS unM none none = .ok p :=
+  seqPlace_complete_unit unVR unCS unM { unM with res := [1], exc := [((0, 0), [0])] } [(o 0, (0, 0))]
+    none none 0 (by decide)
+    (by
+      intro c _ i; apply dem_nonneg_of_all
+      simp only [cap, unM, aget]; intro x hx; simp at hx; omega)
+    (by intro vs h; simp [unCS] at h)
+    (by
+      intro v d h
+      simp [unVR] at h
+      rcases h with ⟨_, rfl⟩ | ⟨_, rfl⟩ | ⟨_, rfl⟩
+      all_goals
+        refine ⟨fun i hi => ?_, by simp [dem]⟩
+        cases i with
+        | zero => exact absurd rfl hi
+        | succ j => simp [dem])
+    (by rfl) (by intro v hv; exact hv) (by decide) (by decide) (by decide)
 
 end example_
 
